@@ -252,6 +252,63 @@ def run(ctx: Ctx):
                          f"a value set on it is never encoded", rule="C03-R4")
     ctx.note(f"definitions analysed: {all_defs} in {len(classes_with_defs)} classes")
 
+    # ---- R11 / R12: names ---------------------------------------------------------------------
+    import re as _re
+
+    def _n(s_):
+        return _re.sub(r"[^a-z0-9]", "", (s_ or "").lower())
+
+    def _an(a_):
+        a_ = a_.lower()
+        a_ = _re.sub(r"^tgpp2_", "3gpp2_", a_)
+        a_ = _re.sub(r"^tgpp_", "3gpp_", a_)
+        return _n(a_.replace("fiveqi", "5qi"))
+    ctx.rule("C03-R12", "AVP names of the dictionary are unique within a vendor (a name is what a "
+                        "message without python implementation exposes an AVP under)", floor=2000)
+    by_name: dict[tuple, list] = {}
+    for e_ in dct.all_entries:
+        ctx.inst(f"dictionary[{e_.code}/{e_.vendor or 0}]:name", rule="C03-R12", nontrivial=False)
+        by_name.setdefault((e_.vendor or 0, e_.name), []).append(e_)
+    ctx.rules["C03-R12"]["nontrivial"] |= {f"{k[0]}:{k[1]}" for k in by_name}
+    for (vend, nm), es in sorted(by_name.items(), key=str):
+        codes = sorted({e_.code for e_ in es})
+        if len(codes) > 1:
+            ctx.fail(f"dictionary:name({nm})#unique", es[-1].where(dct.module),
+                     f"the AVP name {nm!r} is given to the codes {codes} of vendor {vend}: a message "
+                     f"without python implementation exposes both AVPs merged under one attribute "
+                     f"(and neither under the name of the second), typed containers end up with two "
+                     f"attributes denoting a dictionary AVP of the same name", rule="C03-R12")
+    ctx.rule("C03-R11", "an attribute that bears the name of a dictionary AVP denotes that AVP, "
+                        "not another one", floor=2000)
+    # frozen after reading: the Cx application (TS 29.229) re-defines SIP-Authenticate /
+    # SIP-Authorization as 3GPP AVPs 609 / 610, which the dictionary calls 3GPP-SIP-...
+    SAME_NAME_OK = {("SipAuthDataItem", "sip_authenticate"): "TS 29.229 SIP-Authenticate is 609/10415",
+                    ("SipAuthDataItem", "sip_authorization"): "TS 29.229 SIP-Authorization is 610/10415"}
+    names_idx: dict[str, list] = {}
+    for e_ in dct.all_entries:
+        names_idx.setdefault(_n(e_.name), []).append(e_)
+    for ci in classes_with_defs:
+        for d in extract_avp_defs(model, ci, fields, defaults) or []:
+            if not isinstance(d.avp_code, int):
+                continue
+            entry = dct.get(d.avp_code, d.vendor_id)
+            if entry is None:
+                continue
+            cons = f"{d.construct}#name"
+            ctx.inst(cons, rule="C03-R11", nontrivial=False)
+            a_, n_ = _an(d.attr_name), _n(entry.name)
+            if a_ == n_ or (ci.name, d.attr_name) in SAME_NAME_OK:
+                continue
+            other = [o for o in names_idx.get(a_, []) if (o.code, o.vendor) != (entry.code, entry.vendor)]
+            if other:
+                o = other[0]
+                ctx.fail(cons, d.where(), f"{ci.name}.{d.attr_name} is defined with the code of "
+                         f"{entry.name} ({entry.code}/{entry.vendor or 0}) while the dictionary has an AVP "
+                         f"of the attribute's own name, {o.name} ({o.code}/{o.vendor or 0}): a received "
+                         f"{o.name} is not decoded into the attribute (and is dropped on re-encoding), "
+                         f"a value set on the attribute is written as {entry.name}", rule="C03-R11")
+    ctx.rules["C03-R11"]["nontrivial"] |= {f"{ci.name}" for ci in classes_with_defs}
+
     # ---- R8: constructor ordering -----------------------------------------
     ctx.rule("C03-R8", "constructor ordering in every typed Request/Answer class: "
                        "super().__post_init__() < list defaults < assign_attr_from_defs(self, "
